@@ -84,7 +84,7 @@ func buildC14Base(root string, seed int64) (*c14base, error) {
 			t += int64(1 + rng.Intn(2))
 		}
 		// record shapes: key + value, no key and no value (2, 9), key only (5), value only (6)
-		k := keyBytes[c14Keys[i%4]]
+		k := keyBytes[c14Keys[(i/2)%4]] // pairs of equal keys: the same key twice in one segment (and colliding keys a / b)
 		v := valueBytes(i+1, 20+rng.Intn(30))
 		switch i {
 		case 2, 9:
